@@ -155,7 +155,7 @@ func (e *Engine) havocArg(s *State, v Val) {
 			}
 			for i := 0; i < x.StT.NumFields(); i++ {
 				nm, ft := e.fieldHeapName(x, i)
-				if isSyncType(ft) {
+				if isSyncType(ft) && atomicValT(ft) == nil {
 					continue
 				}
 				e.storeHeapVal(s, nm, x.Ref, ft, e.symbolic(s, "hv", ft))
@@ -288,6 +288,10 @@ func (e *Engine) unknownCall(s *State, name string, sig *types.Signature, recv V
 						e.havocArg(s, v)
 					case PtrV:
 						e.havocPtr(s, v)
+					case IfaceV: // an interface{} parameter holding a pointer (binary.Unmarshal(b, &x)): what it points to
+						if pv, ok := v.V.(PtrV); ok && !pv.Nil {
+							e.havocPtr(s, pv)
+						}
 					}
 				}
 			}
@@ -444,6 +448,15 @@ func (e *Engine) traceIntrinsic(s *State, name string, args []Val) (Val, bool) {
 				if p, ok := b.(PtrV); ok {
 					fmt.Printf("DEBUGFN bind %+v -> %+v\n", p, e.load(s, p, p.Elem))
 				}
+			}
+		}
+		if iv, ok := s.trace[i].Args[k].(IfaceV); ok && curResultType != nil {
+			// an interface{} parameter asked for at the concrete type that was passed (TraceArg[*T] of Unmarshal(b, &x))
+			if _, wantIface := curResultType.Underlying().(*types.Interface); !wantIface {
+				if iv.Dyn != nil && types.Identical(iv.Dyn, curResultType) {
+					return iv.V, true
+				}
+				return e.zero(s, curResultType), true
 			}
 		}
 		return s.trace[i].Args[k], true
